@@ -295,7 +295,7 @@ func (mm MeteringMode) MarshalJSON() (buf []byte, err error) {
 // UnmarshalJSON implements the JSONMarshaler interface that is
 // used by encoding/json
 func (mm *MeteringMode) UnmarshalJSON(buf []byte) error {
-	v, err := strconv.ParseUint(string(buf), 10, 8)
+	v, err := strconv.ParseUint(string(buf), 10, 16) // (the type is a uint16, and MarshalJSON writes all of it)
 	*mm = MeteringMode(v)
 	return err
 }
